@@ -344,4 +344,61 @@ example : cleanIndex nextSucc exC [1] exIdx = [] := by rfl
 example : (generateJob nextSucc (fun t => t) exC [exIdx] .add [3]).toOption.map (·.ids) =
     some [([1], true), ([2], true), ([3], false)] := by rfl
 
+/-! ### a follower applies the final ClusterStatus of a completed resize -/
+
+/-- **Cleanup never runs against a stale membership.**  A node that is not the coordinator, is in
+state RESIZING and receives the coordinator's final ClusterStatus (NORMAL or DEGRADED, the final node
+list) ends with (1) exactly the final ring as its node list, (2) the new state, and (3) exactly
+those local fragments whose shard it owns under the FINAL membership -- for an added or a removed
+node alike, for every follower that is part of the final membership (or was not listed before). -/
+theorem C21_follower_cleanup {next : Nat → BitVec 64 → Nat} (hnext : ∀ b k, b < next b k)
+    (f : Follower) (cs : Status) (hs : Sorted f.cluster.nodes) (hfollower : f.coordinator ≠ f.self)
+    (hres : f.state = .resizing) (hfinal : cs.state = .normal ∨ cs.state = .degraded)
+    (hself : f.self ∈ cs.nodes ∨ f.self ∉ f.cluster.nodes) :
+    let final : Cluster := { f.cluster with nodes := run (cs.nodes.map Ev.join) }
+    (mergeClusterStatus next f cs).cluster = final ∧
+    (mergeClusterStatus next f cs).state = cs.state ∧
+    (mergeClusterStatus next f cs).indexes = f.indexes.map (fun ix =>
+      { ix with locals := ix.locals.filter (fun fr => decide (f.self ∈ ownersOf next final ix.name fr.shard)) }) := by
+  have hne : ¬ cs.state = CState.resizing := by
+    rcases hfinal with h | h <;> rw [h] <;> decide
+  simp only [mergeClusterStatus, hfollower, if_false, setState, hres, hne, hfinal, and_self, if_true,
+    mergeNodes_eq_final hs hself, true_and]
+  apply List.map_congr_left
+  intro ix _
+  rw [C21_cleanup hnext _ (run_sorted _).nodup]
+
+/-- In every other situation the status merge leaves the fragments alone: cleanup is triggered
+only by the RESIZING -> NORMAL/DEGRADED transition, and never on the coordinator by this path. -/
+theorem C21_follower_no_cleanup {next : Nat → BitVec 64 → Nat} (f : Follower) (cs : Status)
+    (h : f.coordinator = f.self ∨ f.state ≠ .resizing ∨ cs.state = .resizing ∨ cs.state = .starting) :
+    (mergeClusterStatus next f cs).indexes = f.indexes := by
+  unfold mergeClusterStatus
+  split
+  · rfl
+  · rename_i hc
+    simp only [setState]
+    split
+    · rfl
+    · simp only
+      have : ¬ ((cs.state = .normal ∨ cs.state = .degraded) ∧ f.state = .resizing) := by
+        rintro ⟨h1, h2⟩
+        rcases h with h | h | h | h
+        · exact hc h
+        · exact h h2
+        · rw [h] at h1; rcases h1 with h1 | h1 <;> cases h1
+        · rw [h] at h1; rcases h1 with h1 | h1 <;> cases h1
+      simp [this]
+
+/-- a follower of {1,2,3} (replicas 2) learns that node 3 is gone: it keeps what it owns among {1,2} -/
+example : (mergeClusterStatus nextSucc
+    { cluster := exC3, state := .resizing, self := [1], coordinator := [2],
+      indexes := [{ exIdx with locals := [⟨"f", "standard", 0⟩, ⟨"f", "standard", 1⟩] }] }
+    { state := .normal, nodes := [[1], [2]], coordinator := [2] }).indexes.map (·.locals)
+    = [[⟨"f", "standard", 0⟩, ⟨"f", "standard", 1⟩]] := by rfl
+example : (mergeClusterStatus nextSucc
+    { cluster := { nodes := [[1], [2], [3]], replicaN := 1 }, state := .resizing, self := [1], coordinator := [2],
+      indexes := [{ exIdx with locals := [⟨"f", "standard", 0⟩, ⟨"f", "standard", 1⟩] }] }
+    { state := .normal, nodes := [[1], [2]], coordinator := [2] }).indexes.map (·.locals) = [[]] := by rfl
+
 end PV.C21
